@@ -71,17 +71,25 @@ def replay_all(gh, subcmd, export, chunks=8, extra=None):
     return total, mms, lines
 
 
-def confirm_case(gh, subcmd, case_line, tag, extra=None):
+def confirm_case(gh, subcmd, case_line, tag, extra=None, company=None):
+    """Re-runs one case in a fresh process - in the company it was built in, if the disagreement recorded one (what a text means
+    may depend on the texts built before it): then only a disagreement on the case itself counts."""
     d = os.path.join(scratch(), "caseconfirm-" + tag)
     os.makedirs(d, exist_ok=True)
-    stats, mms = replay_chunk(gh, subcmd, d, 0, [case_line.rstrip("\n") + "\n"], extra)
+    lines = [case_line.rstrip("\n") + "\n"]
+    if company:
+        lines = [json.dumps(c) + "\n" for c in company]
+    stats, mms = replay_chunk(gh, subcmd, d, 0, lines, extra)
+    if company:
+        target = json.loads(case_line)
+        mms = [m for m in mms if m.get("line") == target]
     return mms
 
 
-def save_case_replay(prop, tier, seed, k, subcmd, case_line, mm, extra=None):
+def save_case_replay(prop, tier, seed, k, subcmd, case_line, mm, extra=None, company=None):
     os.makedirs(os.path.join(VERIF, "replays"), exist_ok=True)
     path = os.path.join(VERIF, "replays", "%s-%s-%d-case%d.json" % (prop, tier, seed, k))
-    json.dump({"property": prop, "kind": "case", "subcmd": subcmd, "extra": extra or [], "case": json.loads(case_line), "disagreement": mm,
+    json.dump({"property": prop, "kind": "case", "subcmd": subcmd, "extra": extra or [], "case": json.loads(case_line), "company": company, "disagreement": mm,
                "how": "./check replay " + path}, open(path, "w"), indent=1)
     return path
 
@@ -89,7 +97,7 @@ def save_case_replay(prop, tier, seed, k, subcmd, case_line, mm, extra=None):
 def replay(path):
     r = json.load(open(path))
     gh = build_harness()
-    mms = confirm_case(gh, r["subcmd"], json.dumps(r["case"]), "replay", r.get("extra"))
+    mms = confirm_case(gh, r["subcmd"], json.dumps(r["case"]), "replay", r.get("extra"), r.get("company"))
     if mms:
         print("replay of %s: still disagrees: %s" % (path, json.dumps(mms[0])[:400]))
         print("VIOLATION property=%s replay=%s" % (r["property"], path))
@@ -114,6 +122,10 @@ def report(prop, tier, seed, gh, subcmd, mms, key_of, case_of, known=None, extra
             continue
         line = json.dumps(case_of(mm))
         again = confirm_case(gh, subcmd, line, "%s-%d" % (p, len(seen)), extra)
+        company = None
+        if not again and mm.get("company"):
+            company = mm["company"]
+            again = confirm_case(gh, subcmd, line, "%s-%d-company" % (p, len(seen)), extra, company)
         if known:
             again = [m for m in again if not known(m)]
         if not again:
@@ -122,7 +134,7 @@ def report(prop, tier, seed, gh, subcmd, mms, key_of, case_of, known=None, extra
             continue
         seen[k] = p
         violations += 1
-        path = save_case_replay(p, tier, seed, violations, subcmd, line, again[0], extra)
+        path = save_case_replay(p, tier, seed, violations, subcmd, line, again[0], extra, company)
         print("VIOLATION property=%s replay=%s" % (p, path))
         print("  %s" % json.dumps(again[0])[:600])
     for text, n in sorted(known_hits.items()):
